@@ -69,9 +69,9 @@ def build_inreg(cfg):
     cls = getattr(action, cfg["action"])
     shape = SHAPES[cfg["shape"]]()
     res_cls = [action.ResRAW0, action.ResRAWL, action.ResR0WA, action.ResR0W0][(cfg["init"] + len(cfg["shape"])) % 4]
-    reg = csr.Register({"lo": csr.Field(res_cls, 1),
+    reg = csr.Register({"lo": csr.Field(res_cls, 2),
                         "f": csr.Field(cls, shape, init=init_obj(cfg["shape"], cfg["init"])),
-                        "wo": csr.Field(action.W, 1),
+                        "wo": csr.Field(action.W, 2),
                         "hi": csr.Field(action.RW, 2, init=1)}, access="rw")
     m = Module()
     m.submodules.reg = reg
@@ -94,7 +94,7 @@ class InRegObserver:
         self.mask = (1 << self.w) - 1
         self.init = (cfg["init"] & self.mask, 1)
         self.ii, self.pi = comp.in_index, comp.probe_index
-        self.total = 1 + self.w + 1 + 2
+        self.total = 2 + self.w + 2 + 2
         self.meta_err = None if h.meta["width"] == self.total else f"register width {h.meta['width']}, expected {self.total}"
         doms = []
         for name, w in zip(comp.in_names, comp.in_widths):
@@ -102,8 +102,8 @@ class InRegObserver:
                 # all values of the field's own bits x the neighbours' bits 0/1 patterns
                 vals = set()
                 for fv in (range(1 << self.w) if self.w <= 3 else [t & self.mask for t in WIDE_TOKENS]):
-                    for nb in (0, (1 << self.total) - 1, 0b01 << (self.total - 2)):
-                        vals.add((nb & ~(self.mask << 1)) | (fv << 1))
+                    for nb in (0, (1 << self.total) - 1, 0b01 << (self.total - 2), 0b10 << (self.total - 2)):
+                        vals.add((nb & ~(self.mask << 2)) | (fv << 2))
                 doms.append(sorted(vals))
             elif w <= 3:
                 doms.append(range(1 << w))
@@ -120,21 +120,21 @@ class InRegObserver:
         s, hi = obs
         ii, pi, a, mask = self.ii, self.pi, self.a, self.mask
         w_stb, w_data = letter[ii["w_stb"]], letter[ii["w_data"]]
-        exp_bus = (s << 1) | (hi << (1 + self.w + 1))
+        exp_bus = (s << 2) | (hi << (2 + self.w + 2))
         if outs[pi["e_r_data"]] != exp_bus:
             return dict(msg=f"bus read of the register returns {outs[pi['e_r_data']]:#x}, expected {exp_bus:#x} (field storage {s:#x}, hi {hi}; reserved and write-only bits read zero)",
                         signature=dict(kind="oracle", action=a, probe="bus_read")), obs
         if outs[pi["data"]] != s or outs[pi["hi_data"]] != hi:
             return dict(msg=f"data outputs {outs[pi['data']]:#x}/{outs[pi['hi_data']]:#x} differ from what the bus read returns ({s:#x}/{hi:#x})",
                         signature=dict(kind="oracle", action=a, probe="data_vs_bus")), obs
-        fw = (w_data >> 1) & mask
+        fw = (w_data >> 2) & mask
         if a == "RW":
             ns = fw if w_stb else s
         elif a == "RW1C":
             ns = ((s & ~(fw if w_stb else 0)) | letter[ii["set"]]) & mask
         else:
             ns = ((s & ~letter[ii["clear"]]) | (fw if w_stb else 0)) & mask
-        nhi = ((w_data >> (1 + self.w + 1)) & 3) if w_stb else hi
+        nhi = ((w_data >> (2 + self.w + 2)) & 3) if w_stb else hi
         return None, (ns, nhi)
 
 
